@@ -195,6 +195,41 @@ def oracle_c04(out):
             if c == [] or lk[int(c[0])] != x: fails.append(("C04/reference-id-wrong", "%r" % (x,)))
     return fails
 
+def oracle_c04_denorm(res):
+    """the library's own way back from ids to NodeIds (nodeset_generator.create_lookup_df / denormalize_nodes_nodeids / denormalize_references_nodeids,
+    as the writer uses them) against the parse output's lookup table"""
+    from opcua_tools.nodeset_generator import create_lookup_df, denormalize_nodes_nodeids, denormalize_references_nodeids
+    nodes, refs = res["nodes"], res["references"]
+    uniq = list(res["lookup_df"]["uniques"])
+    isna = parsecmp.isna
+    fails = []
+    before = (repr(list(nodes.columns)), len(nodes), len(refs))
+    try:
+        lk_nodes = create_lookup_df(nodes)
+        own = {int(i): n for i, n in zip(nodes["id"], nodes["NodeId"])}
+        got = {int(i): n for i, n in zip(lk_nodes.index, lk_nodes["uniques"])}
+        if got != own or len(lk_nodes) != len(nodes): fails.append(("C04/denormalize", "create_lookup_df does not map every node's id to its NodeId"))
+        full = res["lookup_df"][["uniques"]].copy(); full.index = range(len(full))
+        dn = denormalize_nodes_nodeids(nodes.copy(), full)
+        if len(dn) != len(nodes) or sorted(int(i) for i in dn["id"]) != sorted(int(i) for i in nodes["id"]):
+            fails.append(("C04/denormalize", "denormalize_nodes_nodeids returns %d rows for %d nodes" % (len(dn), len(nodes))))
+        else:
+            want = {}
+            for _, r in nodes.iterrows():
+                want[int(r["id"])] = tuple(None if (c not in nodes.columns or isna(r[c])) else uniq[int(r[c])] for c in parsecmp.REFCOLS)
+            for _, r in dn.iterrows():
+                g_ = tuple(None if (c not in dn.columns or isna(r[c])) else r[c] for c in parsecmp.REFCOLS)
+                if g_ != want[int(r["id"])]:
+                    fails.append(("C04/denormalize", "node id %d: attribute targets %r, the lookup table says %r" % (int(r["id"]), g_, want[int(r["id"])]))); break
+        dr = denormalize_references_nodeids(refs.copy(), full)
+        wt = sorted(repr((uniq[int(a)], uniq[int(b)], uniq[int(c)])) for a, b, c in zip(refs["Src"], refs["Trg"], refs["ReferenceType"]))
+        gt = sorted(repr((a, b, c)) for a, b, c in zip(dr["Src"], dr["Trg"], dr["ReferenceType"]))
+        if wt != gt: fails.append(("C04/denormalize", "denormalize_references_nodeids: %d triples, %d expected; first difference %r" % (len(gt), len(wt), next(((x, y) for x, y in zip(gt, wt) if x != y), None))))
+    except BaseException as e:
+        fails.append(("C04/denormalize", "denormalisation raised %s: %s" % (type(e).__name__, str(e)[:120])))
+    if (repr(list(nodes.columns)), len(nodes), len(refs)) != before: fails.append(("C04/denormalize", "the parse output was modified"))
+    return fails
+
 def make_case(rng, quick, size=None, wide=None, slash_twin=None):
     r_ = rng.random()
     wide = (r_ < 0.08) if wide is None else wide      # many namespaces: two-digit local indices, long namespace tables
@@ -339,7 +374,9 @@ def run(ctx, prop):
                 callers += [[UA, "None", "None"] + perm[:1], [UA, "None"] + perm[-1:] + ["None"], [UA] + perm[:1] + ["None", "None", "urn:unused", "None"]]
             outs = []
             for caller in callers:
-                out, _ = parsecmp.impl_parse(work, files, caller)
+                out, res_ = parsecmp.impl_parse(work, files, caller)
+                if prop == "C04" and out[0] == "ok":
+                    for sig, detail in oracle_c04_denorm(res_): ctx.fail(sig, dict(kind="docset", seed=ctx.seed, case=ci, caller=caller, files=files), detail)
                 reqs.append(parsecmp.model_request(work, [(n, d) for n, d, _ in ds], caller, vts)); meta.append(("in-domain", ci, caller, out, None))
                 treqs.append(parsecmp.model_request_text(work, files_plain, caller, vts))
                 outs.append((caller, out))
